@@ -82,8 +82,12 @@ func (c *Ctx) registry(rule string) *registryModel {
 				}
 			case *ssa.Store:
 				if fa, ok := x.Addr.(*ssa.FieldAddr); ok {
-					if s, ok := constString(x.Val); ok && core.CanonFieldOf(fa.X.Type(), fa.Field) == "jsonName" {
-						rm.jsonConsts[s] = true
+					if core.CanonFieldOf(fa.X.Type(), fa.Field) == "jsonName" {
+						for _, src := range traceSources(x.Val) {
+							if s, ok := constString(src); ok {
+								rm.jsonConsts[s] = true
+							}
+						}
 					}
 				}
 				if g, ok := x.Addr.(*ssa.Global); ok {
@@ -912,6 +916,13 @@ func shapeComparisons(fn *ssa.Function, shapes map[*ssa.Global]string) map[strin
 	out := map[string]bool{}
 	for _, f := range core.WithAnon(fn) {
 		core.EachInstr(f, func(i ssa.Instruction) {
+			// a type switch on the field's value dispatches on the same three shapes
+			if ta, ok := i.(*ssa.TypeAssert); ok && ta.CommaOk {
+				if s := schemaShapeOf(ta.AssertedType); s != "" {
+					out[s] = true
+				}
+				return
+			}
 			bo, ok := i.(*ssa.BinOp)
 			if !ok || (bo.Op != token.EQL && bo.Op != token.NEQ) {
 				return
@@ -1010,6 +1021,15 @@ func ruleC20NoSkip(c *Ctx) {
 			case *ssa.Extract:
 				if _, isNext := x.Tuple.(*ssa.Next); isNext {
 					okGuard = true
+				}
+				// a case of a type switch on the field's value
+				if ta, isTA := x.Tuple.(*ssa.TypeAssert); isTA && x.Index == 1 {
+					if s := schemaShapeOf(ta.AssertedType); s != "" {
+						okGuard = true
+						if br.Succ == 0 {
+							shape = s
+						}
+					}
 				}
 			}
 			if bo, ok := cond.(*ssa.BinOp); ok && !okGuard {
@@ -1533,4 +1553,31 @@ func knownNonNilError(ret *ssa.Return, v ssa.Value) bool {
 		}
 	}
 	return true
+}
+
+// schemaShapeOf: "schema", "slice" or "map" for *Schema, []*Schema, map[string]*Schema (of the analysed package); else "".
+func schemaShapeOf(t types.Type) string {
+	isSchemaPtr := func(t types.Type) bool {
+		p, ok := t.(*types.Pointer)
+		if !ok {
+			return false
+		}
+		n, ok := types.Unalias(p.Elem()).(*types.Named)
+		return ok && n.Obj().Name() == "Schema" && curCtx != nil && n.Obj().Pkg() == curCtx.P.Types
+	}
+	switch x := t.Underlying().(type) {
+	case *types.Pointer:
+		if isSchemaPtr(t) {
+			return "schema"
+		}
+	case *types.Slice:
+		if isSchemaPtr(x.Elem()) {
+			return "slice"
+		}
+	case *types.Map:
+		if isSchemaPtr(x.Elem()) {
+			return "map"
+		}
+	}
+	return ""
 }
